@@ -3,6 +3,7 @@ package main
 // Symbolic execution of go/ssa function bodies into verification conditions.
 
 import (
+	"os"
 	"fmt"
 	"go/constant"
 	"go/token"
@@ -103,6 +104,7 @@ type loopInfo struct {
 type retInfo struct {
 	st  *State
 	val Value
+	blk int
 }
 
 type deferred struct {
@@ -130,6 +132,8 @@ type Frame struct {
 	args     []Value
 	nilok    map[string]bool
 	preSt    *State
+	constRefs map[string][]*ssa.DebugRef
+	threaded map[[2]int][]edgeIn
 }
 
 func (x *Exec) note(format string, a ...interface{}) {
@@ -177,10 +181,10 @@ func (x *Exec) leafWf(l *LeafInfo, name string, st *State) {
 	r := x.em.fresh("wfr")
 	switch l.NIdx {
 	case 0:
-		x.em.items = append(x.em.items, item{line: fmt.Sprintf("(assert (forall ((%s Int)) (! (and (<= 0 (select %s %s)) (<= (select %s %s) %s)) :pattern ((select %s %s)))))", r, name, r, name, r, st.Frontier, name, r)})
+		x.em.items = append(x.em.items, item{glob: true, line: fmt.Sprintf("(assert (forall ((%s Int)) (! (and (<= 0 (select %s %s)) (<= (select %s %s) %s)) :pattern ((select %s %s)))))", r, name, r, name, r, st.Frontier, name, r)})
 	case 1:
 		i := x.em.fresh("wfi")
-		x.em.items = append(x.em.items, item{line: fmt.Sprintf("(assert (forall ((%s Int) (%s (_ BitVec 64))) (! (and (<= 0 (select (select %s %s) %s)) (<= (select (select %s %s) %s) %s)) :pattern ((select (select %s %s) %s)))))", r, i, name, r, i, name, r, i, st.Frontier, name, r, i)})
+		x.em.items = append(x.em.items, item{glob: true, line: fmt.Sprintf("(assert (forall ((%s Int) (%s (_ BitVec 64))) (! (and (<= 0 (select (select %s %s) %s)) (<= (select (select %s %s) %s) %s)) :pattern ((select (select %s %s) %s)))))", r, i, name, r, i, name, r, i, st.Frontier, name, r, i)})
 	}
 }
 
@@ -628,13 +632,13 @@ func (x *Exec) strLit(s string) string {
 	name := fmt.Sprintf("str.%d", len(x.strLits))
 	x.strLits[s] = name
 	x.em.declare(name, "Str")
-	x.em.items = append(x.em.items, item{line: fmt.Sprintf("(assert (= (slen %s) %s))", name, bvLit(uint64(len(s)), 64))})
+	x.em.items = append(x.em.items, item{glob: true, line: fmt.Sprintf("(assert (= (slen %s) %s))", name, bvLit(uint64(len(s)), 64))})
 	n := len(s)
 	if n > 64 {
 		n = 64 // long literals (log formats) are only compared by identity
 	}
 	for i := 0; i < n; i++ {
-		x.em.items = append(x.em.items, item{line: fmt.Sprintf("(assert (= (select (sarr %s) %s) %s))", name, bvLit(uint64(i), 64), bvLit(uint64(s[i]), 8))})
+		x.em.items = append(x.em.items, item{glob: true, line: fmt.Sprintf("(assert (= (select (sarr %s) %s) %s))", name, bvLit(uint64(i), 64), bvLit(uint64(s[i]), 8))})
 	}
 	return name
 }
@@ -985,7 +989,7 @@ func findLoops(fn *ssa.Function) map[int]*loopInfo {
 func (x *Exec) newFrame(fn *ssa.Function, spec *FuncSpec, prefix string) *Frame {
 	fr := &Frame{fn: fn, spec: spec, vals: map[ssa.Value]Value{}, prefix: prefix,
 		blockOut: map[int]*State{}, edge: map[[2]int]string{}, occ: map[string]int{},
-		names: map[string][]ssa.Value{}, cbSpecs: map[string]*FuncSpec{}, nilok: map[string]bool{}}
+		names: map[string][]ssa.Value{}, cbSpecs: map[string]*FuncSpec{}, nilok: map[string]bool{}, constRefs: map[string][]*ssa.DebugRef{}, threaded: map[[2]int][]edgeIn{}}
 	fr.loops = findLoops(fn)
 	for _, l := range fr.loops {
 		if spec != nil {
@@ -1000,6 +1004,9 @@ func (x *Exec) newFrame(fn *ssa.Function, spec *FuncSpec, prefix string) *Frame 
 				}
 				if obj := d.Object(); obj != nil {
 					fr.names[obj.Name()] = append(fr.names[obj.Name()], d.X)
+					if _, isConst := d.X.(*ssa.Const); isConst {
+						fr.constRefs[obj.Name()] = append(fr.constRefs[obj.Name()], d)
+					}
 				}
 			}
 			if a, ok := in.(*ssa.Alloc); ok && a.Comment != "" {
@@ -1041,6 +1048,58 @@ func (x *Exec) runBodyWith(fr *Frame, st0 *State, perRet func(k, n int, r *retIn
 	return out, val
 }
 
+// threadJumps: if block b consists only of phis and "if flag" where flag is a
+// phi of b, each incoming edge that sets the flag to a constant goes straight
+// to the corresponding successor: the successors then do not have to merge
+// the heap states of edges that can never reach them.
+func (x *Exec) threadJumps(fr *Frame, b *ssa.BasicBlock, ins []edgeIn) {
+	if os.Getenv("GOVC_NOTHREAD") != "" || len(ins) < 2 || fr.loops[b.Index] != nil || len(b.Succs) != 2 || b.Succs[0] == b.Succs[1] {
+		return
+	}
+	var iff *ssa.If
+	for _, in := range b.Instrs {
+		switch i := in.(type) {
+		case *ssa.Phi, *ssa.DebugRef:
+		case *ssa.If:
+			iff = i
+		default:
+			return
+		}
+	}
+	if iff == nil {
+		return
+	}
+	phi, ok := iff.Cond.(*ssa.Phi)
+	if !ok || phi.Block() != b {
+		return
+	}
+	var tru, fls []edgeIn
+	for _, in := range ins {
+		idx := -1
+		for j, p := range b.Preds {
+			if p == in.pred {
+				idx = j
+			}
+		}
+		if idx < 0 {
+			return
+		}
+		if c, ok := phi.Edges[idx].(*ssa.Const); ok && c.Value != nil {
+			if c.Value.String() == "true" {
+				tru = append(tru, in)
+			} else {
+				fls = append(fls, in)
+			}
+			continue
+		}
+		v := x.term(x.value(fr, phi.Edges[idx]))
+		tru = append(tru, edgeIn{cond: x.em.define("E", "Bool", and(in.cond, v)), st: in.st, pred: in.pred})
+		fls = append(fls, edgeIn{cond: x.em.define("E", "Bool", and(in.cond, not(v))), st: in.st, pred: in.pred})
+	}
+	fr.threaded[[2]int{b.Index, b.Succs[0].Index}] = tru
+	fr.threaded[[2]int{b.Index, b.Succs[1].Index}] = fls
+}
+
 func trivialReturn(b *ssa.BasicBlock) bool {
 	for _, in := range b.Instrs {
 		switch in.(type) {
@@ -1071,6 +1130,9 @@ func (x *Exec) runRegion(fr *Frame, order []*ssa.BasicBlock, start *ssa.BasicBlo
 		if only != nil && !only[b.Index] {
 			continue
 		}
+		if fr.isTop {
+			x.em.setTag(b.Index)
+		}
 		var st *State
 		var ins []edgeIn
 		if b == start {
@@ -1081,6 +1143,14 @@ func (x *Exec) runRegion(fr *Frame, order []*ssa.BasicBlock, start *ssa.BasicBlo
 					continue
 				}
 				if only != nil && !only[p.Index] {
+					continue
+				}
+				if th, ok := fr.threaded[[2]int{p.Index, b.Index}]; ok {
+					// jump threading: p only tests a flag that each of its own
+					// predecessors sets to a constant; b inherits those edges directly
+					for _, t := range th {
+						ins = append(ins, edgeIn{cond: t.cond, st: t.st, pred: p})
+					}
 					continue
 				}
 				ps, ok := fr.blockOut[p.Index]
@@ -1132,6 +1202,7 @@ func (x *Exec) runRegion(fr *Frame, order []*ssa.BasicBlock, start *ssa.BasicBlo
 			x.step(fr, st, in)
 		}
 		fr.blockOut[b.Index] = st
+		x.threadJumps(fr, b, ins)
 		// back edges
 		if x.discover == 0 {
 			for _, s := range b.Succs {
